@@ -408,27 +408,34 @@ def wfLayout (x : Sequence) : Bool :=
 /-! #### additional conditions of the write-then-read clause -/
 
 mutual
-/-- a location the writer can express: a span `start+1..stop` with `0 ≤ start < stop`, or a join
-of such (the node itself carrying no span), either possibly complemented -/
+/-- a location the writer can express (as `BuildLocationString` is since ec3cbb7 / 1650bb9):
+a span (any two integers, `{0,0}` of a feature assembled without location included), or a node with
+operands that carries no span of its own (poly never reads `Start/End` of such a node): several
+operands (written `join(…)` whether or not `Join` is set), one operand under `Join`, or the
+complement of a complement; either possibly complemented.  `Join` without operands is not a location. -/
 def wfLoc : Location.PLoc → Bool
-  | ⟨start, stop, _, join, _, _, subs⟩ =>
-    if join then start == 0 && stop == 0 && !subs.isEmpty && wfLocs subs
-    else decide (0 ≤ start) && decide (start < stop) && subs.isEmpty
+  | ⟨start, stop, c, join, _, _, subs⟩ =>
+    match subs with
+    | [] => !join
+    | [s] => start == 0 && stop == 0 && (join || (c && s.complement)) && wfLoc s
+    | s :: t :: ss => start == 0 && stop == 0 && wfLocs (s :: t :: ss)
 def wfLocs : List Location.PLoc → Bool
   | [] => true
   | l :: ls => wfLoc l && wfLocs ls
 end
 
 mutual
-/-- partial markers belong to spans; on a join / complement node they are derived (set iff set
-somewhere below), so they are recomputed before two locations are compared -/
+/-- partial markers belong to spans; on a node with operands they are derived (set iff set
+somewhere below), and so is `Join` of a node with several operands (`BuildLocationString` and
+`getFeatureSequence` treat it as a join whatever the flag says): both are recomputed before two
+locations are compared -/
 def normLoc : Location.PLoc → Location.PLoc
   | ⟨start, stop, c, join, five, three, subs⟩ =>
     match subs with
     | [] => ⟨start, stop, c, join, five, three, []⟩
     | s :: ss =>
       let n := normLocs (s :: ss)
-      ⟨start, stop, c, join, n.any (·.five), n.any (·.three), n⟩
+      ⟨start, stop, c, join || !ss.isEmpty, n.any (·.five), n.any (·.three), n⟩
 def normLocs : List Location.PLoc → List Location.PLoc
   | [] => []
   | l :: ls => normLoc l :: normLocs ls
@@ -497,5 +504,112 @@ def seqEquiv (x y : Sequence) : Bool :=
     && listBeq refBeq a.references b.references
     && sortedEntries a.other == sortedEntries b.other
     && listBeq featBeq x.features y.features
+
+/-! ### the domains the JUDGE uses
+
+The theorems keep `wfLayout` / `wfSeq`.  The judge admits more, because three classes of records that
+the property's quantifier contains are KNOWN FINDINGS (they fail, are tagged, and are not hidden):
+
+* `C03-blank-run-at-wrap`: metadata with runs of blanks (the parser's image has them) — `textJ`
+  instead of `singleSpaced`;
+* `C03-nameless-locus`: a record assembled without a locus name;
+* `C03-reference-number`: a `Reference.Index` that is not the position (unset, or renumbered).
+
+Still excluded, with the reason (the flat-file layout has no place for the datum, or poly never reads it):
+a blank at either END of a metadata value (the keyword line cannot delimit it; the parser's
+`TrimSpace` never produces one, so the parser's image has none); tabs / newlines / non-ASCII in text;
+a locus name with a blank; a length that is not a number; a molecule type outside poly's list;
+keywords that do not fit or collide with the writer's own; `Circular && Linear`; a qualifier value
+beginning or ending with a quotation mark, a qualifier key with `/`; a cached location text that does
+not denote the structure; `Start/End` on a node with operands, `Join` without operands, a
+one-operand node that is neither a join nor a double complement; a sequence with non-letters. -/
+
+/-- printable ASCII without a blank at either end; runs of blanks inside are allowed -/
+def textJ (t : Str) : Bool := t.all printable && t.head? != some ' ' && t.getLast? != some ' '
+
+def wfLocusJ (l : Locus) : Bool :=
+  (l.name == [] || isWord l.name) && l.sequenceLength.all isDigit
+    && (l.moleculeType == [] || molTypes.contains l.moleculeType)
+    && (l.genbankDivision == [] || divisions.contains l.genbankDivision)
+    && (l.modificationDate == [] || isDate l.modificationDate)
+
+def wfRefJ (r : Reference) : Bool :=
+  textJ r.range && textJ r.authors && textJ r.title && textJ r.journal && textJ r.pubMed && textJ r.remark
+
+def wfOtherJ (maxKey : Nat) (kv : Str × Str) : Bool :=
+  isWord kv.1 && (match kv.1 with | c :: _ => isLetter c | [] => false) && kv.1.length ≤ maxKey
+    && !reservedKeys.contains kv.1 && textJ kv.2
+
+def wfLayoutJ (x : Sequence) : Bool :=
+  let m := x.metadata
+  wfLocusJ m.locus
+    && textJ m.definition && textJ m.accession && textJ m.version
+    && textJ m.keywords && textJ m.source && textJ m.organism
+    && m.references.all wfRefJ
+    && nodupKeys m.other && m.other.all (wfOtherJ 12)
+    && x.features.all wfFeature
+    && x.sequence != [] && x.sequence.all isLetter && x.sequence.length < 1000000000
+
+def wfSeqJ (x : Sequence) : Bool :=
+  let m := x.metadata
+  wfLayoutJ x && !(m.locus.circular && m.locus.linear)
+    && m.other.all (wfOtherJ 11) && x.features.all wfFeatureRT
+
+/-! #### what the known findings predict -/
+
+/-- what is read back from a wrapped block holding `t` -/
+def readBack (t : Str) : Str := textOf (lines (StrBuild.wrapString t 68))
+
+/-- the range read back from the REFERENCE line number `i + 1` -/
+def readBackRange (i : Nat) (range : Str) : Str :=
+  (mkBlock "REFERENCE".toList (readBack (Location.itoa (i + 1) ++ "  ".toList ++ range)) []).text
+
+def lossyRefs : Nat → List Reference → List Reference
+  | _, [] => []
+  | i, r :: rs =>
+    { r with index := Location.itoa (i + 1), range := readBackRange i r.range, authors := readBack r.authors,
+             title := readBack r.title, journal := readBack r.journal, pubMed := readBack r.pubMed,
+             remark := readBack r.remark } :: lossyRefs (i + 1) rs
+
+/-- the record that the three known findings predict to come back: blank runs at wrap points
+become one blank, references are numbered by position, and the LOCUS line of a name-less record is
+read one token to the left -/
+def expectedBack (x : Sequence) : Sequence :=
+  let m := x.metadata
+  let l := m.locus
+  let locus : Locus :=
+    if l.name == [] then
+      (if l.sequenceLength == [] then { l with name := "bp".toList, sequenceCoding := [] }
+       else { l with name := l.sequenceLength, sequenceLength := [], sequenceCoding := [] })
+    else l
+  { x with metadata := { m with
+      locus := locus,
+      definition := readBack m.definition, accession := readBack m.accession, version := readBack m.version,
+      keywords := readBack m.keywords, source := readBack m.source, organism := readBack m.organism,
+      references := lossyRefs 0 m.references,
+      other := m.other.map fun kv => (kv.1, readBack kv.2) } }
+
+/-- class C03-blank-run-at-wrap: a run of two or more blanks in a metadata value lands on a wrap point -/
+def clsBlankRun (x : Sequence) : Bool :=
+  let m := x.metadata
+  let e := (expectedBack x).metadata
+  m.definition != e.definition || m.accession != e.accession || m.version != e.version || m.keywords != e.keywords
+    || m.source != e.source || m.organism != e.organism
+    || (m.other.map Prod.snd) != (e.other.map Prod.snd)
+    || (m.references.map fun r => (r.range, r.authors, r.title, r.journal, r.pubMed, r.remark))
+        != (e.references.map fun r => (r.range, r.authors, r.title, r.journal, r.pubMed, r.remark))
+
+/-- class C03-nameless-locus -/
+def clsNameless (x : Sequence) : Bool := x.metadata.locus.name == []
+
+/-- class C03-reference-number -/
+def clsRefNumber (x : Sequence) : Bool := !wfRefIndex 0 x.metadata.references
+
+/-- `SequenceCoding` is compared when the record says `bp` and has a length (`Build` writes the
+constant ` bp`, the parser reads the unit only next to a number); any other unit is outside the
+comparison: the writer has no parameter for it -/
+def codingOk (x y : Sequence) : Bool :=
+  let l := x.metadata.locus
+  !(l.sequenceCoding == "bp".toList && l.sequenceLength != []) || y.metadata.locus.sequenceCoding == "bp".toList
 
 end PolyVerif.Spec.GbStrict
